@@ -1,7 +1,7 @@
 (* Real-number lemmas for M_slicing.v (C01, C02): signs and case split, crossing points, the per-face kernel. *)
 From Coq Require Import ZArith Reals Lra Psatz List Bool Lia Arith.
 From PW Require Import Num NumR Vec NpList Result.
-From PW.model Require Import M_slicing.
+From PW.model Require Import M_slicing M_slicing_spec.
 From PW.proofs Require Import P_vec P_nplist.
 Import ListNotations.
 Local Open Scope R_scope.
@@ -41,23 +41,8 @@ Lemma snap_neg tol d : snap ROps tol (- d) = - snap ROps tol d.
 Proof. unfold snap, n0; rops. rewrite Rabs_Ropp. destruct (Rleb (Rabs d) tol); lra. Qed.
 
 (* ---- the 27 corner patterns ---------------------------------------------------------------------------------- *)
-Definition sgn_vals : list Z := [-1; 0; 1]%Z.
-Definition all_patterns : list sgn3 :=
-  flat_map (fun a => flat_map (fun b => map (fun c => (a, b, c)) sgn_vals) sgn_vals) sgn_vals.
 
 (* what the case split must be, pattern by pattern (code convention: -1 = in front, 0 = on, 1 = behind) *)
-Definition case_ok (s : sgn3) (m : bool) : bool :=
-  let all_le0 := ((sget s 0 <=? 0) && (sget s 1 <=? 0) && (sget s 2 <=? 0))%Z in
-  let all_ge0 := ((0 <=? sget s 0) && (0 <=? sget s 1) && (0 <=? sget s 2))%Z in
-  match face_case s m with
-  | Keep => negb m || all_le0                       (* not selected, or wholly on / in front *)
-  | Drop => m && all_ge0 && negb all_le0             (* selected, no corner in front, some corner behind *)
-  | CQuad k => m && (k <? 3)%nat && (sget s k =? 1)%Z &&     (* k behind, the other two in front *)
-               (sget s ((k + 1) mod 3) =? -1)%Z && (sget s ((k + 2) mod 3) =? -1)%Z
-  | CTri k => m && (k <? 3)%nat && (sget s k =? -1)%Z &&     (* k in front, the others not, one of them behind *)
-              (0 <=? sget s ((k + 1) mod 3))%Z && (0 <=? sget s ((k + 2) mod 3))%Z &&
-              (1 <=? sget s ((k + 1) mod 3) + sget s ((k + 2) mod 3))%Z
-  end.
 
 Lemma sign_cases : forallb (fun s => forallb (case_ok s) [true; false]) all_patterns = true.
 Proof. vm_compute. reflexivity. Qed.
@@ -84,13 +69,6 @@ Lemma dget_tri_dists tol n o t k : (k < 3)%nat ->
 Proof. intros Hk. destruct k as [|[|[|k]]]; try lia; reflexivity. Qed.
 
 (* ---- points on edges, barycentric combinations ------------------------------------------------------------ *)
-Definition lerp (p q : vec3 R) (t : R) : vec3 R := vadd ROps p (vscale ROps t (vsub ROps q p)).
-Definition bary (t : tri R) (w0 w1 w2 : R) : vec3 R :=
-  vadd ROps (vadd ROps (vscale ROps w0 (tget t 0)) (vscale ROps w1 (tget t 1))) (vscale ROps w2 (tget t 2)).
-Definition in_tri (t : tri R) (x : vec3 R) : Prop :=
-  exists w0 w1 w2, 0 <= w0 /\ 0 <= w1 /\ 0 <= w2 /\ w0 + w1 + w2 = 1 /\ x = bary t w0 w1 w2.
-Definition tri_normal (t : tri R) : vec3 R :=
-  vcross ROps (vsub ROps (tget t 1) (tget t 0)) (vsub ROps (tget t 2) (tget t 0)).
 
 Ltac dvec := repeat match goal with v : vec3 R |- _ => destruct v as [? ? ?] end.
 Ltac tunf := unfold lerp, bary, tri_normal, plane_dot; cbn [tget fst snd]; vunf.
